@@ -366,6 +366,10 @@ func (c14) Check(c *core.Case, env *core.Env, res zzsim.Result, v *core.Verdict)
 			if h.OK {
 				n, _ := strconv.Atoi(h.Arg)
 				accepted = append(accepted, int32(n))
+			} else if !containsStr(h.Err, "consumer blocked") {
+				// nothing is wrong with the connection and the validator
+				// accepts the value: the write has no reason to fail
+				bad("valid-write-refused", "a well-typed write the validator accepts failed on a healthy connection: %s", h)
 			}
 		case "set-rejected":
 			if h.OK {
